@@ -23,7 +23,7 @@ RULE = (
 ASSUMPTIONS = ["a False answer carries no information and is never checked", "FP validity is decided by Z3's FPA solver with a timeout (unknown = inconclusive)"]
 BUDGET_S = {"quick": 240, "thorough": 3000}
 N = {"quick": 1500, "thorough": 40000}
-NH = {"quick": 60, "thorough": 2500}
+NH = {"quick": 150, "thorough": 2500}
 SOLVER_FRONTENDS = ("Solver", "SolverCacheless", "SolverComposite", "SolverReplacement", "SolverHybrid")
 
 
@@ -170,6 +170,37 @@ def fp_bools(draw):
     return draw(fpcheck.bool_tree(2, True))
 
 
+@st.composite
+def truth_scenarios(draw):
+    """Constraints that feed truth shortcuts and replacements (x == c, b, Not(b), bounds), then a derived solver
+    (branch / blank_copy / split / combine / merge), then is_true / is_false about those same constraints on it."""
+    W = sm.W
+    x, y = ("var", draw(st.sampled_from(("a", "b"))), W), ("var", draw(st.sampled_from(("c", "d"))), W)
+    k1, k2 = draw(st.sampled_from(sm.CONSTS)), draw(st.sampled_from(sm.CONSTS))
+    pool = [("eq", x, ("const", k1, W)), ("eq", y, ("const", k2, W)), ("bvar", "p"), ("not", ("bvar", "p")), ("ult", x, ("const", k2, W)),
+            ("ne", x, ("const", k1, W)), ("eq", ("bvadd", x, y), ("const", k1, W)), ("uge", y, x)]
+    hist = []
+    for _ in range(draw(st.integers(1, 3))):
+        hist.append({"op": "add", "s": 0, "cs": [draw(st.sampled_from(pool))], "as_list": draw(st.booleans())})
+    op = draw(st.sampled_from(("blank_copy", "split", "merge", "combine", "branch", "blank_copy")))
+    if op in ("merge", "combine"):
+        hist.append({"op": "branch", "s": 0})
+        hist.append({"op": "add", "s": 1, "cs": [draw(st.sampled_from(pool))], "as_list": False})
+        if op == "merge":
+            hist.append({"op": "merge", "s": 0, "others": [1], "conds": [draw(st.sampled_from(pool)) for _ in range(3)], "ancestor": None})
+        else:
+            hist.append({"op": "combine", "s": 0, "others": [1]})
+    else:
+        hist.append({"op": op, "s": 0})
+    for _ in range(draw(st.integers(2, 6))):
+        e = draw(st.sampled_from(pool))
+        if draw(st.integers(0, 3)) == 0:
+            e = ("not", e)
+        hist.append({"op": draw(st.sampled_from(("is_true", "is_false"))), "s": draw(st.sampled_from((1, 2, 3, 7))), "e": e,
+                     "extra": [draw(st.sampled_from(pool))] if draw(st.integers(0, 4)) == 0 else []})
+    return hist
+
+
 def run_shard(shard, ctx):
     kind = shard["kind"]
     tier = ctx.tier
@@ -193,7 +224,9 @@ def run_shard(shard, ctx):
                 elif fp not in seen:
                     ctx.count("attributed_elsewhere:" + fp.split(":")[-1])
 
-        hyp.run(sm.histories(("truth", "maint", "branch")), shard["n"], shard["hseed"], body, ctx)
+        groups = ("truth", "maint", "branch", "algebra") if shard["i"] % 2 else ("truth", "maint", "branch")
+        hyp.run(sm.histories(groups), shard["n"] // 2, shard["hseed"], body, ctx)
+        hyp.run(truth_scenarios(), shard["n"] // 2, shard["hseed"] + 1, body, ctx)
         return
 
     spell = st.integers(0, 2**16)
